@@ -57,6 +57,12 @@ def check_target_wrapping(rep, facts, rule):
                 n += 1
                 ok = imm is not None and imm[0] == 'imm' and imm[1][0] == 'list' and len(imm[1][1]) == 2 \
                     and imm[1][1][0] == ('const', '%offset') and imm[1][1][1][0] == 'tok'
+                # the expression node built directly: Offset(tok) is what parse_immediate(['%offset', tok]) returns
+                ok = ok or (imm is not None and imm[0] == 'call' and imm[1] == 'Offset' and len(imm[2]) == 1 and not imm[3] and imm[2][0][0] == 'tok')
+                plain = imm is not None and ((imm[0] == 'imm' and imm[1][0] in ('list', 'rest', 'tok')) or (imm[0] == 'call' and imm[1] == 'Arithmetic')
+                                             or imm[0] in ('tok', 'lower', 'const'))
+                if not ok and not plain:
+                    raise AnalysisError('parse_item: how the target operand of {} is built on the label path is not understood: {}'.format(o.cls, imm))
                 rep.check(ok, rule, '{}: label operand parsed as %offset(label)'.format(o.cls),
                           lambda o=o: Finding(rule, 'parse_item', o.node, 'a branch/jump target that is not an integer is not wrapped in %offset', line=o.node.lineno))
             elif not is_int_path:
